@@ -954,3 +954,8 @@ for _p in ("C03", "C13"):
 PROPS["C13"]["verus_units"] = list(PROPS["C13"].get("verus_units", [])) + ["commit_apply"]
 UNIT_META["commit_apply"]["assumes"] = UNIT_META["commit_apply"]["assumes"] + ["ghost view of the log (next record id, ids appended): Log::{begin_record,end_record} are contracts taking `&mut self` so that the view can change (the real functions use atomics behind `&self`); planning functions keep the writer's record id; LogChange::is_empty is declared (arbitrary answer) although the code does not call it"]
 
+
+# ---------------------------------------------------------------- U27 extension: the client-facing seeks forget the parked lookahead (defect 18, fix 3fb2f50)
+UNIT_META["iter_reposition"]["functions"] = UNIT_META["iter_reposition"]["functions"] + ["btree::iter::BTreeIterator::{seek,seek_to_last}"]
+UNIT_META["iter_reposition"]["assumes"] = UNIT_META["iter_reposition"]["assumes"] + ["client-facing seeks: the `&RwLock<LogOverlays>` field and its read guard are stand-ins declared in the template; `self.iter` is the two fields tree / iter; `<[T]>::to_vec` by contract; the calls to seek_backend / seek_backend_to_last are rewritten to the free-function form the unit gives them (listed rewrites)"]
+PROPS["C04"]["claim"] = PROPS["C04"]["claim"] + " Client-facing seeks (Verus): BTreeIterator::seek and seek_to_last forget the parked lookahead of the merge (an item fetched from the tree for the position before the seek), remember the seeked key / the end position for later repositioning, and leave the backend at the key asked for / after the last key."
